@@ -26,11 +26,8 @@ def make_units(tier):
                       'first': first, 'incoming': 'few'})
         units.append({'kind': 'wrap31', 'name': 'wrap31 first=%d depth=%d' % (first, 6 if tier == 'quick' else 8),
                       'first': first, 'depth': 6 if tier == 'quick' else 8})
-        if tier == 'thorough':
-            units.append({'kind': 'graph', 'name': 'graph max=0xF first=%d all ids' % first, 'max': 0xF, 'first': first,
-                          'incoming': 'all'})
-            units.append({'kind': 'graph', 'name': 'graph max=0x1F first=%d incoming few' % first, 'max': 0x1F,
-                          'first': first, 'incoming': 'few'})
+        # (larger id spaces were tried for the thorough tier: max 0xF with all 15 incoming ids has 262k states and takes
+        #  about an hour single-threaded, 0x1F does not finish; the thorough tier deepens the 31-bit histories instead)
     for flavour in ('tcp', 'msg'):
         units.append({'kind': 'wire', 'name': 'wire ' + flavour, 'flavour': flavour, 'tier': tier})
     return units
